@@ -1201,7 +1201,9 @@ func registerMisc(in *Interp) {
 		h := hs(a[0])
 		pre, _ := a[1].([]Value)
 		tok := &HashToken{chunks: append([]Value(nil), h.chunks...)}
-		return append(append([]Value(nil), pre...), tok.bytes()...)
+		// like the real Sum: append(in, digest...) -- writes into in's backing array when
+		// its capacity allows (callers sharing a scratch buffer alias each other)
+		return append(pre, tok.bytes()...)
 	})
 	in.reg("(*crypto/sha256.digest).Reset", func(th *Thread, fn *ssa.Function, a []Value) Value {
 		hs(a[0]).chunks = nil
